@@ -29,6 +29,10 @@ type RetryTransaction struct {
 	Data          interface{}
 }
 
+// ErrRetryPostponed is returned by a retry callback which could not retransmit
+// now (the peer is asleep): the retry does not count.
+var ErrRetryPostponed = errors.New("retry postponed")
+
 // Retry callback type.
 type RTRetryCallback func(data interface{}) error
 
@@ -132,6 +136,12 @@ func (t *RetryTransaction) timeout(gen uint64) {
 		return
 	}
 	if err := t.retryCallback(t.Data); err != nil {
+		if err == ErrRetryPostponed {
+			// Nothing was retransmitted: do not count it.
+			t.retryNum = 0
+			t.restartTimer()
+			return
+		}
 		t.Fail(err)
 		return
 	}
